@@ -86,6 +86,23 @@ def bystander_check():
     return d
 
 
+def embedder_op(cpu, api):
+    """one thing an embedder does to an instance between steps. Strings name an API of Registers / ArmV6 (interrupt entry, reset, event); 'swap_registers'
+    replaces the register file by a deep copy of itself (save / restore of the processor state); 'take_data_abort' delivers an asynchronous abort;
+    ['set', key, value] writes a system register through the Python API (what an MCR handler or a debugger does)"""
+    if isinstance(api, (list, tuple)) and api and api[0] == 'set':
+        target.apply_state(cpu, {api[1]: api[2]})
+    elif api == 'swap_registers':
+        import copy
+        cpu.registers = copy.deepcopy(cpu.registers)
+    elif api == 'take_data_abort':
+        from armulator.armv6.arm_exceptions import DataAbortException
+        from armulator.armv6.enums import DAbort
+        cpu.registers.take_data_abort_exception(DataAbortException(DAbort.ASYNC_EXTERNAL, False))
+    else:
+        (getattr(cpu.registers, api, None) or getattr(cpu, api))()
+
+
 def run(case, with_mem=True):
     """returns (cpu, pre, [post per step], [exception or None per step])"""
     if 'cpu' not in _BY:
@@ -99,7 +116,7 @@ def run(case, with_mem=True):
         if api:
             # what an embedder does between steps: interrupt injection, reset, event signalling (the states reached this way are valid machine states)
             try:
-                (getattr(cpu.registers, api, None) or getattr(cpu, api))()
+                embedder_op(cpu, api)
             except Exception as ex:       # noqa: BLE001 - reported by the caller like an escaping step exception
                 excs.append(ex)
                 posts.append(target.snapshot(cpu, with_mem))
@@ -108,6 +125,9 @@ def run(case, with_mem=True):
         excs.append(e)
         posts.append(target.snapshot(cpu, with_mem))
         if e is not None:
+            # an embedder that catches the documented NotImplementedError of a mock hook and carries on (here: delivers an interrupt next) keeps using the instance
+            if target.escape_ok(e) and any(int(k) > i for k in inject):
+                continue
             break
     return cpu, pre, posts, excs
 
